@@ -95,7 +95,7 @@ def run(ctx):
     ctx.sample_trace(tr, 12, skip=1)
 
     # E4 ---------------------------------------------------------------------------------------
-    for pct, n in ((0, 2000 if thorough else 130), (3, 1000 if thorough else 70)):
+    for pct, n in ((0, 2000 if thorough else 100), (3, 1000 if thorough else 50)):
         tr = os.path.join(ctx.work, 'rand_p%d.ndjson' % pct)
         tot, _ = ctx.driver(exe, ['--out', tr, '--random', n, '--seed', ctx.seed + 13 * pct, '--randprog',
                                   '--pct', pct], WHAT, label='random pct%d' % pct)
